@@ -106,7 +106,7 @@ def generate(ctx):
         M.ModelCfg("T_dc", "F_all_k1", "AS_dup", handles=2, maxadd=8, maxcol=6),
         M.ModelCfg("T_dc", "F_all", "AS_perm", handles=1, amounts="AM_pm2", maxadd=8, maxcol=6),
     ]
-    jobs += [M.sim_job(mc, num=600 if thorough else 80, depth=24, seed=ctx.seed * 101 + i) for i, mc in enumerate(deep)]
+    jobs += [M.sim_job(mc, num=300 if thorough else 80, depth=24, seed=ctx.seed * 101 + i) for i, mc in enumerate(deep)]
     behs = M.run_jobs(ctx, jobs, parallel=4)
     ctx.extra["witness_behaviours"] = sum(1 for b in behs if b["src"].startswith("Wit"))
     if ctx.extra["witness_behaviours"] != nwit:
@@ -132,7 +132,7 @@ def random_programs(ctx, n, x0):
 
 def execute_and_validate(ctx, exe, programs, tag):
     byx = M.run_programs(ctx, exe, programs, tag)
-    res = M.validate(ctx, byx, ctx.known_devs(), checktime=True, tag=tag, parallel=4)
+    res = M.validate(ctx, byx, MY_DEVS, checktime=True, tag=tag, parallel=4)
     M.classify(ctx, res, programs, "C06 " + tag)
     for p in programs:
         ctx.evaluations += 1
@@ -160,7 +160,7 @@ def run(ctx):
     asimpl = _asimpl(thorough)
     order = ["d", "dc", "dc2v", "dcpm", "ddc"]
     M.model_check(ctx, [ideal[k] for k in order] + [asimpl[k] for k in ("d", "dc", "dc2v")],
-                  workers=4 if thorough else 3, parallel=3 if thorough else 2, timeout_s=1500 if thorough else 400)
+                  workers=4 if thorough else 3, parallel=3 if thorough else 2, timeout_s=2400 if thorough else 900)
     _t(ctx, "model checking")
     # 2. behaviours of the model ------------------------------------------------------------------------
     behs, wit_asimpl = generate(ctx)
@@ -213,6 +213,6 @@ def replay(ctx, path):
         return metrics_conc.replay(ctx, rep)
     exe = build.harness("c06_sync", ["c06_sync.cc"], "asan")
     byx = M.run_programs(ctx, exe, [prog], "replay")
-    res = M.validate(ctx, byx, ctx.known_devs(), checktime=True, tag="replay", parallel=1)
+    res = M.validate(ctx, byx, MY_DEVS, checktime=True, tag="replay", parallel=1)
     M.classify(ctx, res, [prog], "C06 replay")
     ctx.sample({"kind": "replayed history", "ops": prog["ops"][:12]})
